@@ -133,6 +133,7 @@ def _run_scenario(sc: dict) -> dict:
                 expect=step.get("expect"),
                 site_lines=step.get("site_lines"),
                 site_findings=step.get("site_findings"),
+                site_spans=step.get("site_spans"),
                 observe=bool(step.get("observe")),
                 bag_check=_bag_check(step.get("bag_expect")),
                 outside_unchanged=(outside_after == outside_before) and not stray,
